@@ -381,3 +381,21 @@ pub fn spec_fits(v: i64, bits: usize) -> bool {
 pub fn stub_format(_args: core::fmt::Arguments<'_>) -> String {
     String::new()
 }
+
+/// The UTF-8-like code of `v` in exactly `l` bytes (RFC 9639 section 9.1.5), closed form.
+/// Only meaningful when `v` fits the `l`-byte class; bytes beyond `l` are zero.
+pub fn spec_utf8_encode(v: u64, l: usize) -> [u8; 7] {
+    let mut out = [0u8; 7];
+    if l == 1 {
+        out[0] = v as u8;
+        return out;
+    }
+    let head_prefix: u8 = (0xFFu16 << (8 - l)) as u8; // l leading ones, then a zero
+    out[0] = head_prefix | ((v >> (6 * (l - 1))) as u8 & (0x7Fu8 >> l));
+    let mut i = 1;
+    while i < l {
+        out[i] = 0x80 | ((v >> (6 * (l - 1 - i))) as u8 & 0x3F);
+        i += 1;
+    }
+    out
+}
